@@ -273,6 +273,10 @@ let f _id vs =
                       | Some flag -> known flag
                       | None ->
                         (match explain got o rel with
+                         | Some "detector_miss_reflexive" when mrc <> RNone || (match excl_reason m subj o rel with Some RNone -> false | _ -> true) ->
+                           (* the listed finding is a miss of the detector AS MODELLED; a shape the detector
+                              model does report is a regression of the real detector *)
+                           prop "the real breaking-change detector reports nothing on a shape its model (Check/V2Breaking.v) reports"
                          | Some flag -> known flag
                          | None -> prop "engines differ on a userset / wildcard subject, no breaking-change reason, no listed finding reproduces the v2 answer")
                     end
